@@ -14,7 +14,7 @@ RULE = (
     "stream = [tail of a readout] + 2..400 strict readouts back to back (0..60 data lines each, 30 B .. ~3 KiB, with/without checksum, CRLF/LF, "
     "unique 10-digit id in each; streams up to ~600 KiB). two families: free-form readouts, and equal-length readouts from one template so that "
     "chunk sizes L, L/2, 2L with an offset never put a call boundary between two readouts. splittings: none, fixed sizes "
-    "{1,2,3,7,64,100,1000,1024,4096,8192,65536} with random offset, random cuts, template-aligned sizes. evaluations = (stream, splitting) executions; "
+    "{1,2,3,7,64,100,1000,1024,4096,8192,65536} with random offset, random cuts, template-aligned sizes, cuts near multiples of 8191/8192 (relative to stream start and to the end of the leading tail), line-by-line and readout-by-readout feeding; plus twin executions (two reader objects fed alternately). evaluations = (stream, splitting) executions; "
     "distinct non-trivial = distinct (stream digest, splitting) pairs whose stream holds >= 2 readouts (all do)."
 )
 ASSUMPTIONS = ["strict readouts come from vf/ref/p1_ref.py; every one is < 8 KiB"]
@@ -57,6 +57,12 @@ def specs_for(rng, total: int, lead_len: int, L: int | None):
             specs.append(("fixed", s, 0))
     k = rng.randint(1, 12)
     specs.append(("cuts", sorted(rng.sample(range(1, total), min(k, total - 1)))))
+    # cuts near the multiples of the reader's 8 KiB guard, relative to the stream start and to the end of the leading tail
+    specs.append(splits.limit_spec(rng, total))
+    near = sorted({min(total - 1, max(1, lead_len + k8 * 8192 + rng.randint(-60, 120))) for k8 in range(1, 1 + min(6, total // 8192))})
+    if near:
+        specs.append(("cuts", near[: rng.randint(1, len(near))]))
+        specs.append(("cuts", [rng.choice(near)]))
     if L is not None:
         for c in {L, 2 * L, L // 2 if L % 2 == 0 else L, 3 * L}:
             if c < total:
@@ -64,6 +70,38 @@ def specs_for(rng, total: int, lead_len: int, L: int | None):
                 # first boundary at off (0 < off < c), then every c: never at lead_len + k*L when c is a multiple/divisor-compatible of L
                 specs.append(("fixed", c, off))
     return specs
+
+
+def twin(rng, ctx) -> None:
+    """Two ModeDReader objects fed alternately must each deliver exactly their own stream (no state shared between instances)."""
+    ids = p1_gen.IdSource(rng)
+    sents = [[p1_gen.strict_readout(rng, ids, rng.choice((0, 2, 6))) for _ in range(rng.randint(2, 6))] for _ in range(2)]
+    chunk_lists = [splits.chunks(b"".join(st), splits.random_spec(rng, len(b"".join(st)))) for st in sents]
+    if rng.random() < 0.5:
+        chunk_lists = [splits.chunks(b"".join(st), splits.aligned_spec(b"".join(st), 0x0A, 1)) for st in sents]
+    readers = [p1_mon.new_reader(), p1_mon.new_reader()]
+    got = [[], []]
+    idx = [0, 0]
+    order = []
+    raised = None
+    while idx[0] < len(chunk_lists[0]) or idx[1] < len(chunk_lists[1]):
+        k = rng.randrange(2)
+        if idx[k] >= len(chunk_lists[k]):
+            k = 1 - k
+        order.append(k)
+        try:
+            for m in readers[k].read(chunk_lists[k][idx[k]]):
+                got[k].append((bytes(m.as_bytes), m.is_valid is True))
+        except Exception as ex:
+            raised = ex
+        idx[k] += 1
+    ctx.count("twin_executions")
+    case = {"twin": True, "chunks": [list(c) for c in chunk_lists], "order": order, "sent": sents}
+    if raised is not None:
+        ctx.violation(f"C05:read-raised:{p1_mon.where(raised)}", f"read() raised {raised!r} on clean streams fed to two reader objects alternately", case)
+    for k in range(2):
+        if got[k] != [(r, True) for r in sents[k]]:
+            ctx.violation("C05:instances-share-state", f"reader {k}: {len(sents[k])} clean readouts sent, {sum(1 for g in got[k] if g[1])} delivered valid and byte-identical when another reader object is used in between", case)
 
 
 def compare(lead: bytes, sent: list[bytes], spec, ctx) -> None:
@@ -114,6 +152,19 @@ def run(shard: dict, ctx) -> None:
         for spec in specs:
             compare(lead, sent, spec, ctx)
             ctx.case(f"{shard['index']}/{i}/{spec}", True)
+        # delimiter-aligned feeding: line by line, and readout by readout
+        full = lead + b"".join(sent)
+        if total < 120000:
+            compare(lead, sent, splits.aligned_spec(full, 0x0A, rng.choice((1, 1, 3))), ctx)
+            ctx.case(f"{shard['index']}/{i}/lines", True)
+        bounds, pos = [], len(lead)
+        for r_ in sent[:-1]:
+            pos += len(r_)
+            bounds.append(pos)
+        compare(lead, sent, ("cuts", bounds), ctx)
+        ctx.case(f"{shard['index']}/{i}/readouts", True)
+        if i % 3 == 0:
+            twin(rng, ctx)
         ctx.count("streams_template" if L else "streams_freeform")
         ctx.count("streams_with_leading_tail" if lead else "streams_without_lead")
         ctx.maximum("max_stream_bytes", total)
@@ -124,6 +175,21 @@ def run(shard: dict, ctx) -> None:
 
 
 def replay(case: dict, ctx) -> None:
+    if case.get("twin"):
+        readers = [p1_mon.new_reader(), p1_mon.new_reader()]
+        got = [[], []]
+        idx = [0, 0]
+        for k in case["order"]:
+            try:
+                for m in readers[k].read(case["chunks"][k][idx[k]]):
+                    got[k].append((bytes(m.as_bytes), m.is_valid is True))
+            except Exception as ex:
+                ctx.violation(f"C05:read-raised:{p1_mon.where(ex)}", repr(ex), case)
+            idx[k] += 1
+        for k in range(2):
+            if got[k] != [(r, True) for r in case["sent"][k]]:
+                ctx.violation("C05:instances-share-state", f"reader {k} differs when interleaved", case)
+        return
     if case.get("sent") is None:
         import random  # regenerate the large stream from its generator parameters
 
